@@ -83,7 +83,8 @@ impl SO2StateSpace {
         if fraction > 0.0 && fraction <= 1.0 {
             self.longest_valid_segment_fraction = fraction;
         } else if fraction <= 0.0 {
-            self.longest_valid_segment_fraction = 0.;
+            // A zero resolution would make every motion check take forever (the number of
+            // interpolation steps is distance / resolution): keep the current fraction.
         } else {
             self.longest_valid_segment_fraction = 1.;
         }
